@@ -75,11 +75,18 @@ def make_recipe(rng, tier, which=None):
             "hseed": int(rng.integers(2 ** 31)), "frame": "df" if rng.random() < 0.5 else None}
 
 
-def penalties(det, name, n, p, det_spec=None):
+def penalties(det, name, n, p, det_spec=None, X=None):
     from skchange.anomaly_detectors.mvcapa import capa_penalty_factory
 
     if name == "CAPA":
-        return (float(det.collective_penalty_), np.zeros(1)), (float(det.point_penalty_), np.zeros(1))
+        # the penalties the user configured: the spec's scales times the fitted penalties of a twin built with
+        # unit scales on data of the same shape (CAPA's penalties depend on the training shape only and are
+        # proportional to the scale, C15) -- not the judged object's own attributes, which a defect in the
+        # handling of the scales would falsify together with the result
+        kw = dict(det_spec["kw"], collective_penalty_scale=1.0, point_penalty_scale=1.0)
+        unit = build({"cls": "CAPA", "kw": kw}).fit(np.zeros((n, p)) if X is None else X)
+        return ((float(det_spec["kw"]["collective_penalty_scale"]) * float(unit.collective_penalty_), np.zeros(1)),
+                (float(det_spec["kw"]["point_penalty_scale"]) * float(unit.point_penalty_), np.zeros(1)))
     from skchange.anomaly_scores import L2Saving, to_saving
 
     cs, ps = build(det_spec["kw"].get("collective_saving")), build(det_spec["kw"].get("point_saving"))
@@ -154,7 +161,7 @@ def exec_case(ctx, r):
         return
     trace = I.stop_trace()
     try:
-        pen_c, pen_p = penalties(det, name, n, p, spec)
+        pen_c, pen_p = penalties(det, name, n, p, spec, Xf)
         coll, point = saving_tables(spec, Xf, m, M)
     except Exception as ex:
         ctx.stat(f"oracle_unavailable[{type(ex).__name__}]")
